@@ -329,11 +329,8 @@ theorem rng_close_hi_exact (r : VRange) (M a p : Version) (hM : r.max = some M) 
     ver_allows_iff a p ha hp hpa, VRange.allows_iff_raw r p hr.1 hp hreg]
 
 /-- **`rcUnionSingle` is exact**: whenever `a.union(b)` answers with a single member, that member is
-well-formed, mentions only bounds of the operands, and admits a regular probe iff one operand does.
-`hloc` excludes the pair "version / local build of it" (`1.0 ∪ 1.0+local` is the point range
-`[1.0+local, 1.0+local]`, which is outside `WF`). -/
+well-formed, mentions only bounds of the operands, and admits a regular probe iff one operand does. -/
 theorem rcUnionSingle_exact (x y : RC) (hx : x.WF) (hy : y.WF) (htx : x.Tidy) (hty : y.Tidy)
-    (hloc : ∀ a b, x = ver a → y = ver b → a.allows b = true → b.allows a = true)
     (u : RC) (h : rcUnionSingle x y = .ok (some u)) :
     u.WF ∧ u.Tidy ∧ (∀ e ∈ u.bounds, e ∈ x.bounds ∨ e ∈ y.bounds) ∧
     ∀ p, p.wf = true → Regular (x.bounds ++ y.bounds) p → u.allows p = (x.allows p || y.allows p) := by
@@ -350,13 +347,24 @@ theorem rcUnionSingle_exact (x y : RC) (hx : x.WF) (hy : y.WF) (htx : x.Tidy) (h
     · simp only [h1, Bool.false_eq_true, if_false] at h
       cases y with
       | ver b =>
-        -- both remaining branches need `a.allows b`, hence (hloc) `b.allows a`
+        -- weak equality: `a` admits `b` (a local build of it): the union is `a`
         simp only [RC.min, RC.max] at h
         by_cases h2 : a.allows b = true
-        · exact absurd (hloc a b rfl rfl h2) h1
+        · simp only [h2, if_true, Except.ok.injEq, Option.some.injEq] at h
+          subst h
+          refine ⟨hx, trivial, fun e he => Or.inl he, fun p hp hreg => ?_⟩
+          have hrb : Reg1 p b := hreg.reg1 (by simp [bounds_ver])
+          cases hbp : (ver b).allows p
+          · simp
+          · have hpb := (ver_allows_iff b p hy hp hrb).1 hbp
+            have hrk := Version.allows_relKey h2
+            rcases hra p hreg with hpa | hpa
+            · have : (ver a).allows p = true := (ver_allows_iff a p hx hp (Or.inl hpa)).2 hpa
+              simp [this]
+            · exact absurd ((relKey_of_vk_eq hpb).trans hrk.symm) hpa
         · simp [h2] at h
       | rng r =>
-        simp only [RC.min, RC.max, RC.imin, RC.imax] at h
+        simp only [RC.min, RC.max, RC.imin, RC.imax, Bool.false_eq_true, if_false] at h
         cases hm : r.min with
         | none =>
           cases hM : r.max with
